@@ -136,6 +136,14 @@ func (k *c05) RunCase(c *core.Ctx, i int) {
 	defer os.RemoveAll(dir)
 	baseDir := filepath.Join(dir, "base")
 	baseFiles := map[string][]byte{"main.knut": []byte(j.Text())}
+	// one case in eight carries a directive that cannot even be loaded (a syntax error): wherever
+	// it ends up in an include tree, every command must still fail
+	badLine := ""
+	if r.Intn(8) == 0 {
+		badLine = []string{"2020-01-01 opne Assets:X", "2020-01-01 price CHF", "2020-13-01 open Assets:X", "include \"not-there.knut\""}[r.Intn(4)]
+		baseFiles["main.knut"] = append(baseFiles["main.knut"], []byte("\n\n"+badLine+"\n")...)
+		rejected = true
+	}
 	core.WriteFiles(baseDir, baseFiles)
 	type outcome struct {
 		class string
@@ -186,6 +194,15 @@ func (k *c05) RunCase(c *core.Ctx, i int) {
 			}
 		} else {
 			files = map[string][]byte{"main.knut": []byte(vj.Text())}
+		}
+		if badLine != "" {
+			var names []string
+			for n := range files {
+				names = append(names, n)
+			}
+			sort.Strings(names)
+			n := names[vr.Intn(len(names))]
+			files[n] = append(append([]byte{}, files[n]...), []byte("\n\n"+badLine+"\n")...)
 		}
 		vdir := filepath.Join(dir, fmt.Sprintf("v%d", vn))
 		core.WriteFiles(vdir, files)
